@@ -538,6 +538,17 @@ def run(ck, ctx):
             return [(v, guards)]
         objs = objects(r.value)
         obj = objs[0][0]
+        # a reader that assembles its sections in loops the model cannot unroll (reflection over the model classes'
+        # fields and annotations at run time) is outside the modelled subset: nothing about it is decided here
+        for o_, _g in objs:
+            for k_, v_ in r.st.heap.items():
+                if k_[0] == o_.id:
+                    opaque = [x for x in walk([I.snapshot(v_, r.st)]) if x.op in ("Loop", "DictComp") or
+                              (x.op == "ListComp" and x.attr == "dict")]
+                    if opaque:
+                        raise AnalysisError(f"config_from_fits builds '{k_[1]}' in a loop over values known only at run "
+                                            f"time ({g.show(opaque[0], 2)[:120]}): the keys it reads and the fields it "
+                                            "fills are not statically enumerable - reader rules R16.2 / R16.3 undecided")
         tops = {}
         all_leaves = []
         seen_leaf = set()
